@@ -14,7 +14,7 @@ func init() {
 	register(&Property{
 		ID:        "C11",
 		Title:     "BPF policy programs reach the same verdict as the policy semantics",
-		Technique: "static analysis: SSA value-flow from proto.Rule fields to emitter calls, constant operands of emitter calls, dominance order of emissions (go/ssa over felix/bpf/polprog, asm, state, felix/rules)",
+		Technique: "static analysis: SSA value-flow from proto.Rule / polprog.Rules fields to emitter and stage calls, constant operands of those calls, mode-flag guards and dominance/reachability order of emissions (go/ssa over felix/bpf/polprog, asm, state, felix/rules)",
 		DesignRef: "DESIGN.md §3 C11 (+ additions at the end of DESIGN.md)",
 		Explanation: "Decides structural necessary conditions of verdict equality on the Go program that emits the BPF policy program: " +
 			"(wiring) every proto.Rule match field reaches its matcher with the right polarity (negate constant true iff Not*), the right leg (legSource for Src*, the caller's dest leg for Dst*), from the IP-version-filtered copy, one kind of field per matcher parameter; " +
@@ -22,7 +22,9 @@ func init() {
 			"(verdict/labels) pol_rc is written only by the footer and the splitter, the allow/deny exit sections store the like-named state.Policy* constant and tail-call through their own index and the static jump map, writeProfiles ends with a match-all deny rule; " +
 			"(actionlabels) every action the iptables reference renderer accepts has the right jump target in the tier and profile label tables, the end-of-tier action is never empty and defaults to deny, the log sentinel never jumps; " +
 			"(fallthrough) the footer is only ever preceded by an unconditional jump or by writeProfiles; " +
-			"(split) the trampoline protocol of maybeSplitProgram is paired (index i+1 <-> targets[i], 0 = fall through), pol_rc is stashed last / loaded first, a new block is started, callers reload registers that are live across a split.",
+			"(split) the trampoline protocol of maybeSplitProgram is paired (index i+1 <-> targets[i], 0 = fall through), pol_rc is stashed last / loaded first, a new block is started, callers reload registers that are live across a split; " +
+			"(stages) the stage table of Builder.Instructions, recovered from which polprog.Rules field flows into which writeTiers/writeProfiles call: every Rules field is consumed, each policy field by one stage per path, with the destination leg its semantics require (pre-NAT only for pre-DNAT policy and under ForXDP), conditional only on the mode flags that may switch it, in the order host-before-workload / pre-DNAT first / tiers before profiles, allowing to the right continuation label, with to/from-host traffic skipping exactly the apply-on-forward stage; " +
+			"(legflow) the stage's leg is handed down unchanged to writeRule (or fixed consistently where there is no leg parameter) and each matchLeg constant selects its own cali_tc_state address/port field.",
 		NotDecided: "Execution of the emitted program (no interpreter): the internals of each matcher (jump opcodes chosen under negate, CIDR/port arithmetic, IP-set key layout), register allocation inside a matcher, trampolines of asm.Block, jump-offset range; that state.Policy* equal the CALI_POL_* enumerators in bpf-gpl; that callers of Instructions put the right tiers into polprog.Rules; the L7 fields (HttpMatch, *ServiceAccountMatch) which no packet dataplane renders.",
 		Assumptions: []string{
 			"go/types + go/ssa (x/tools v0.50.0) model of the current source, CGO_ENABLED=0 build",
@@ -30,6 +32,7 @@ func init() {
 			"skb->cb[0]/cb[1] carry the allow/deny program indices (bpf-gpl jump convention)",
 			"logrus Panic*/Fatal* do not return",
 			"the action universe is the set of case constants of switch pRule.Action in felix/rules, minus \"\" (v3 validation requires an action)",
+			"stage semantics (c11StageTable, one reasoned row per slice-typed field of polprog.Rules): pre-DNAT policy matches the original destination, apply-on-forward/normal/workload policy the post-DNAT one, XDP (untracked) programs only have the pre-NAT tuple; the Field strings of polprog's asm.FieldOffset variables name the C fields they address",
 		},
 		Run:      runC11,
 		Fixtures: c11Fixtures,
@@ -49,12 +52,16 @@ func runC11(c *Ctx) {
 	c.Rule("C11.fallthrough", "E-ORDER", "the emission that precedes every writeProgramFooter call is an unconditional jump or writeProfiles (which ends with the match-all deny rule)", 3)
 	c.Rule("C11.split", "E-PAIR/E-ORDER", "maybeSplitProgram: main flow stashes 0 and jumps over the footer; landing pad i stashes i+1 for targets[i]; pol_rc is stored last before the tail call through policyJumpMapFD; a new block is started; after the header the index is loaded before pol_rc is reset to PolicyNoMatch and dispatched over the same targets; callers reload registers live across a split", 11)
 
+	c.Rule("C11.stages", "E-TABLE/E-FLOW/E-GUARD/E-ORDER", "the stage table of Builder.Instructions, recovered from which polprog.Rules field flows into which stage call: every Rules field is consumed, every policy field by exactly one stage per path; each stage's destination leg is legDestPreNAT iff the stage is pre-DNAT policy or is rendered under ForXDP, legDest otherwise (a TC+XDP field must select by ForXDP); stages depend only on the mode flags that may switch them (workload stages on !ForHostInterface, only to/from-host stages on !SuppressNormalHostPolicy); host before workload, pre-DNAT first, tiers before profiles; host stages allow to a label placed between host and workload stages, workload stages to the allow exit; to/from-host traffic skips exactly the forwarded-traffic stage and forwarded traffic jumps over the to/from-host stages", 60)
+	c.Rule("C11.legflow", "E-FLOW/E-CONST", "(pass) every function between a stage call and writeRule hands its own destination-leg parameter down; a function without one may only fix the leg all stages reaching it expect; (map) each matchLeg constant selects its own cali_tc_state address/port field (source, pre_nat, post_nat)", 12)
+
 	sites := c11Wiring(c, m)
 	c11Cover(c, m, sites)
 	ft := c11Verdict(c, m)
 	c11ActionLabels(c, m, ft)
 	c11Fallthrough(c, m, ft)
 	c11Split(c, m)
+	c11LegFlow(c, m, c11Stages(c, m, ft))
 }
 
 // ------------------------------------------------------------------ wiring --
@@ -1610,4 +1617,772 @@ var c11Fixtures = []Fixture{
 		New: "\t\tp.maybeSplitProgram()\n", Expect: "C11.split/caller/Builder.writePortsMatch"},
 	{Name: "split inside the CIDR section loop loses R2", File: c11File,
 		Old: "\t\t\tlastAddr = addr\n", New: "\t\t\tlastAddr = addr\n\t\t\tp.maybeSplitProgram()\n", Expect: "C11.split/caller/Builder.writeCIDRSMatch"},
+	// stages
+	{Name: "apply-on-forward tiers matched on the pre-DNAT destination (copy/paste of the pre-DNAT line)", File: c11File,
+		Old: "p.writeTiers(rules.HostForwardTiers, legDest, \"allowed_by_host_policy\")", New: "p.writeTiers(rules.HostForwardTiers, legDestPreNAT, \"allowed_by_host_policy\")", Expect: "C11.stages/leg/HostForwardTiers"},
+	{Name: "pre-DNAT tiers matched on the post-DNAT destination", File: c11File,
+		Old: "p.writeTiers(rules.HostPreDnatTiers, legDestPreNAT, \"allowed_by_host_policy\")", New: "p.writeTiers(rules.HostPreDnatTiers, legDest, \"allowed_by_host_policy\")", Expect: "C11.stages/leg/HostPreDnatTiers"},
+	{Name: "XDP untracked policy matched on post-NAT fields that XDP never fills in", File: c11File,
+		Old: "p.writeTiers(rules.HostNormalTiers, legDestPreNAT, \"allowed_by_host_policy\")", New: "p.writeTiers(rules.HostNormalTiers, legDest, \"allowed_by_host_policy\")", Expect: "C11.stages/leg/HostNormalTiers/xdp"},
+	{Name: "workload tiers matched on the pre-DNAT destination", File: c11File,
+		Old: "p.writeTiers(rules.Tiers, legDest, \"allow\")", New: "p.writeTiers(rules.Tiers, legDestPreNAT, \"allow\")", Expect: "C11.stages/leg/Tiers"},
+	{Name: "apply-on-forward stage renders the pre-DNAT tiers again; HostForwardTiers never enforced", File: c11File,
+		Old: "p.writeTiers(rules.HostForwardTiers, legDest,", New: "p.writeTiers(rules.HostPreDnatTiers, legDest,", Expect: "C11.stages/consume/HostForwardTiers"},
+	{Name: "host stage renders the workload profiles; HostProfiles never enforced", File: c11File,
+		Old: "p.writeProfiles(rules.HostProfiles, rules.NoProfileMatchID,", New: "p.writeProfiles(rules.Profiles, rules.NoProfileMatchID,", Expect: "C11.stages/consume/HostProfiles"},
+	{Name: "pre-DNAT tiers rendered a second time behind the to/from-host jump", File: c11File,
+		Old: "\tp.writeTiers(rules.HostForwardTiers, legDest, \"allowed_by_host_policy\")\n", New: "\tp.writeTiers(rules.HostPreDnatTiers, legDestPreNAT, \"allowed_by_host_policy\")\n\tp.writeTiers(rules.HostForwardTiers, legDest, \"allowed_by_host_policy\")\n", Expect: "C11.stages/once/HostPreDnatTiers"},
+	{Name: "host profiles (with their deny-all) rendered before the normal host tiers", File: c11File,
+		Old: "\t\t\tp.writeTiers(rules.HostNormalTiers, legDest, \"allowed_by_host_policy\")\n\t\t\tp.writeProfiles(rules.HostProfiles, rules.NoProfileMatchID, \"allowed_by_host_policy\")\n",
+		New: "\t\t\tp.writeProfiles(rules.HostProfiles, rules.NoProfileMatchID, \"allowed_by_host_policy\")\n\t\t\tp.writeTiers(rules.HostNormalTiers, legDest, \"allowed_by_host_policy\")\n", Expect: "C11.stages/order/HostNormalTiers<HostProfiles"},
+	{Name: "apply-on-forward allow bypasses workload policy", File: c11File,
+		Old: "p.writeTiers(rules.HostForwardTiers, legDest, \"allowed_by_host_policy\")", New: "p.writeTiers(rules.HostForwardTiers, legDest, \"allow\")", Expect: "C11.stages/allow-label/HostForwardTiers"},
+	{Name: "workload profiles allow to the host-policy continuation", File: c11File,
+		Old: "p.writeProfiles(rules.Profiles, rules.NoProfileMatchID, \"allow\")", New: "p.writeProfiles(rules.Profiles, rules.NoProfileMatchID, \"allowed_by_host_policy\")", Expect: "C11.stages/allow-label/Profiles"},
+	{Name: "SuppressNormalHostPolicy also suppresses apply-on-forward policy", File: c11File,
+		Old: "\tp.writeTiers(rules.HostForwardTiers, legDest, \"allowed_by_host_policy\")\n", New: "\tif !rules.SuppressNormalHostPolicy {\n\t\tp.writeTiers(rules.HostForwardTiers, legDest, \"allowed_by_host_policy\")\n\t}\n", Expect: "C11.stages/guards/HostForwardTiers"},
+	{Name: "forwarded traffic falls through into normal host policy", File: c11File,
+		Old: "\tp.b.Jump(\"allowed_by_host_policy\")\n\nnormalPolicy:", New: "\nnormalPolicy:", Expect: "C11.stages/host-skip/exit/HostForwardTiers"},
+	{Name: "to/from-host traffic lands behind the normal host tiers", File: c11File,
+		Old: "\t\t\tp.writeTiers(rules.HostNormalTiers, legDest, \"allowed_by_host_policy\")\n", New: "\t\t\tp.writeTiers(rules.HostNormalTiers, legDest, \"allowed_by_host_policy\")\n\t\t\tp.b.LabelNextInsn(\"to_or_from_host\")\n", Expect: "C11.stages/host-skip/to_or_from_host/HostNormalTiers"},
+	// legflow
+	{Name: "writeTiers renders its policies post-DNAT whatever the stage asked for", File: c11File,
+		Old: "p.writePolicy(pol, actionLabels, destLeg)", New: "p.writePolicy(pol, actionLabels, legDest)", Expect: "C11.legflow/pass/Builder.writeTiers/writePolicy"},
+	{Name: "end-of-tier rule ignores the stage's leg", File: c11File,
+		Old: "}, actionLabels[string(action)], destLeg)", New: "}, actionLabels[string(action)], legDestPreNAT)", Expect: "C11.legflow/pass/Builder.writeTiers/writeRule"},
+	{Name: "profiles matched on the pre-DNAT destination", File: c11File,
+		Old: "p.writePolicyRules(profile, actionLabels, legDest)", New: "p.writePolicyRules(profile, actionLabels, legDestPreNAT)", Expect: "C11.legflow/pass/Builder.writeProfile/writePolicyRules"},
+	{Name: "pre-NAT leg reads the post-NAT port", File: c11File,
+		Old: "portOffset = stateOffPreNATDstPort", New: "portOffset = stateOffPostNATDstPort", Expect: "C11.legflow/map/matchLeg.offsetToStatePortField/legDestPreNAT"},
+	{Name: "post-NAT leg reads the pre-NAT address", File: c11File,
+		Old: "offset = stateOffPostNATIPDst", New: "offset = stateOffPreNATIPDst", Expect: "C11.legflow/map/matchLeg.offsetToStateIPAddressField/legDest"},
+}
+
+// ------------------------------------------------------------------ stages --
+
+// c11StageSpec is the reference semantics of one policy field of
+// polprog.Rules: which packets the stage applies to and which destination it is
+// matched on.  The universe (slice-typed fields of Rules) is computed; a field
+// without an entry, or an entry without a field, breaks the check.
+type c11StageSpec struct {
+	host    bool   // host-endpoint policy: an allow continues to the workload policy (if any)
+	preDNAT bool   // matched on the packet as it arrived, before DNAT
+	xdp     bool   // also rendered into XDP programs (untracked policy), where only the pre-NAT tuple exists
+	traffic string // "forwarded" | "local" (to/from this host) | "" (all traffic)
+	why     string
+}
+
+var c11StageTable = map[string]c11StageSpec{
+	"HostPreDnatTiers": {host: true, preDNAT: true,
+		why: "pre-DNAT host policy (iptables: mangle/raw PREROUTING, before the service DNAT) sees the original destination of all traffic"},
+	"HostForwardTiers": {host: true, traffic: "forwarded",
+		why: "apply-on-forward host policy (iptables: filter FORWARD) sees the post-DNAT destination of forwarded traffic only"},
+	"HostNormalTiers": {host: true, xdp: true, traffic: "local",
+		why: "normal host policy (iptables: filter INPUT/OUTPUT) sees the post-DNAT destination of traffic to/from this host; in an XDP program the same field carries untracked policy, which runs before conntrack/NAT"},
+	"HostProfiles": {host: true, traffic: "local",
+		why: "host endpoint profiles follow the normal host tiers"},
+	"Tiers":    {why: "workload policy sees the post-DNAT destination"},
+	"Profiles": {why: "workload profiles follow the workload tiers"},
+}
+
+type c11StageSite struct {
+	cs     CallSite
+	field  string
+	spec   c11StageSpec
+	tiers  bool
+	xdp    int // +1: only when ForXDP, -1: only when !ForXDP, 0: not decided by ForXDP
+	id     string
+	guards map[string]bool // "<Rules bool field>=<value>" fixed at the site
+}
+
+// c11StageBefore: must stage a be emitted (= evaluated) before stage b?
+func c11StageBefore(a, b *c11StageSite) (bool, string) {
+	switch {
+	case a.spec.host && !b.spec.host:
+		return true, "host-endpoint policy is evaluated before workload policy (its allow continues into the workload policy)"
+	case a.spec.host == b.spec.host && a.spec.preDNAT && !b.spec.preDNAT:
+		return true, "pre-DNAT policy is evaluated before every other host policy"
+	case a.spec.host == b.spec.host && a.tiers && !b.tiers && !a.spec.preDNAT && a.spec.traffic == b.spec.traffic:
+		return true, "profiles are only consulted when no tier made a decision, and end with a deny-all"
+	}
+	return false, ""
+}
+
+func c11Stages(c *Ctx, m *c11Model, ft *c11Footer) map[ssa.Instruction]*c11StageSite {
+	p := m.p
+	rulesT := c11NamedOf(c, p.LookupObj(c11PolPkg, "Rules"), "polprog.Rules")
+	st, _ := rulesT.Underlying().(*types.Struct)
+	if st == nil {
+		c.Lost("polprog.Rules is not a struct")
+	}
+	entry := m.fn(c11PolPkg, "Builder.Instructions")
+	legName := func(v ssa.Value) (string, bool) {
+		cv, ok := constOf(v)
+		if !ok || !types.Identical(types.Unalias(v.Type()), m.legT) {
+			return path(v), false
+		}
+		for _, n := range m.legConstNames() {
+			if c11PkgConst(c, p, c11PolPkg, n).ExactString() == cv.ExactString() {
+				return n, true
+			}
+		}
+		return cv.ExactString(), false
+	}
+
+	// universe: slice-typed fields are the policy stages, bool fields the mode flags
+	policyField := map[string]bool{}
+	tiersField := map[string]bool{}
+	boolVars := map[string]*types.Var{}
+	for i := 0; i < st.NumFields(); i++ {
+		f := st.Field(i)
+		switch u := f.Type().Underlying().(type) {
+		case *types.Slice:
+			policyField[f.Name()] = true
+			tiersField[f.Name()] = namedTypeName(u.Elem()) == "Tier"
+			if _, ok := c11StageTable[f.Name()]; !ok {
+				c.Lost("polprog.Rules.%s is a policy field without an entry in the C11 stage table: say which traffic it applies to and on which destination it matches", f.Name())
+			}
+		case *types.Basic:
+			if u.Kind() == types.Bool {
+				boolVars[f.Name()] = f
+			}
+		}
+	}
+	for n := range c11StageTable {
+		if !policyField[n] {
+			c.Lost("C11 stage table entry %s is not a slice-typed field of polprog.Rules", n)
+		}
+	}
+	for _, n := range []string{"ForXDP", "ForHostInterface", "SuppressNormalHostPolicy"} {
+		if boolVars[n] == nil {
+			c.Lost("polprog.Rules.%s (bool)", n)
+		}
+	}
+
+	// Builder fields that only ever hold a copy of Rules.ForXDP are aliases of it.
+	xdpAlias := map[*types.Var]bool{}
+	notAlias := map[*types.Var]bool{}
+	for _, f := range m.polFuncs() {
+		allInstrs(f, false, func(_ *ssa.Function, in ssa.Instruction) {
+			s, ok := in.(*ssa.Store)
+			if !ok {
+				return
+			}
+			fa, ok := s.Addr.(*ssa.FieldAddr)
+			if !ok || !types.Identical(types.Unalias(derefType(fa.X.Type())), m.builderT) {
+				return
+			}
+			fv := structField(fa.X.Type(), fa.Field)
+			if _, isLoad := s.Val.(*ssa.UnOp); isLoad && fieldVar(s.Val) == boolVars["ForXDP"] {
+				xdpAlias[fv] = true
+			} else {
+				notAlias[fv] = true
+			}
+		})
+	}
+	isAlias := func(v ssa.Value) bool {
+		fv := fieldVar(v)
+		return fv != nil && xdpAlias[fv] && !notAlias[fv]
+	}
+	boolPred := func(name string) func(bool) EdgePred {
+		return func(want bool) EdgePred {
+			if name == "ForXDP" {
+				return c11BoolFieldPred(boolVars[name], want, isAlias)
+			}
+			return c11BoolFieldPred(boolVars[name], want, nil)
+		}
+	}
+	guardsAt := func(in ssa.Instruction) map[string]bool {
+		g := map[string]bool{}
+		for _, n := range sortedKeys(boolVars) {
+			switch c11TriState(in, boolPred(n)) {
+			case +1:
+				g[n+"=true"] = true
+			case -1:
+				g[n+"=false"] = true
+			}
+		}
+		return g
+	}
+	contradict := func(a, b map[string]bool) bool {
+		for n := range boolVars {
+			if (a[n+"=true"] && b[n+"=false"]) || (a[n+"=false"] && b[n+"=true"]) {
+				return true
+			}
+		}
+		return false
+	}
+
+	// ---- stage sites: calls (in the closure of Instructions) that receive a policy field
+	reach := p.closure(entry)
+	var fns []*ssa.Function
+	for f := range reach {
+		if f.Blocks != nil && m.inPolFn(f) {
+			fns = append(fns, f)
+		}
+	}
+	sort.Slice(fns, func(i, j int) bool { return fns[i].Pos() < fns[j].Pos() })
+	var sites []*c11StageSite
+	byInstr := map[ssa.Instruction]*c11StageSite{}
+	handed := map[ssa.Value]bool{}
+	for _, f := range fns {
+		for _, cs := range callsIn(f, false, m.inPol) {
+			for i, a := range cs.Args() {
+				var flds []c11FieldSrc
+				for _, fs := range c11FieldsOfType(a, rulesT) {
+					if policyField[fs.Field] {
+						flds = append(flds, fs)
+					}
+				}
+				if len(flds) == 0 {
+					continue
+				}
+				where := p.Pos(cs.Instr.Pos())
+				if len(flds) > 1 || byInstr[cs.Instr] != nil {
+					c.Undecided("C11.stages/source/"+fnName(f)+"/"+cs.Callee.Name(), where, "argument %d of %s mixes several policy fields of polprog.Rules: a stage must render exactly one field", i, cs.Callee.Name())
+					continue
+				}
+				handed[flds[0].Acc] = true
+				s := &c11StageSite{cs: cs, field: flds[0].Field, spec: c11StageTable[flds[0].Field], tiers: tiersField[flds[0].Field]}
+				s.xdp = c11TriState(cs.Instr, boolPred("ForXDP"))
+				s.guards = guardsAt(cs.Instr)
+				s.id = s.field
+				if s.xdp > 0 {
+					s.id += "/xdp"
+				}
+				sites = append(sites, s)
+				byInstr[cs.Instr] = s
+			}
+		}
+	}
+	if len(sites) == 0 {
+		c.Lost("no call in the closure of Builder.Instructions receives a policy field of polprog.Rules")
+	}
+	sitesOf := map[string][]*c11StageSite{}
+	for _, s := range sites {
+		sitesOf[s.field] = append(sitesOf[s.field], s)
+	}
+
+	// ---- consume: every field of Rules is used; policy fields only by being handed to a stage
+	reads := fieldsRead(reach, rulesT)
+	for i := 0; i < st.NumFields(); i++ {
+		f := st.Field(i)
+		key := "C11.stages/consume/" + f.Name()
+		where := p.Pos(entry.Pos())
+		if !policyField[f.Name()] {
+			c.Check(len(reads[f.Name()]) > 0, key, where, "read while building the program",
+				"polprog.Rules."+f.Name()+" is never read in the closure of Builder.Instructions: the dataplane sets it but the program ignores it")
+			continue
+		}
+		var stray []string
+		for _, in := range reads[f.Name()] {
+			if v, ok := in.(ssa.Value); ok && !handed[v] {
+				stray = append(stray, p.Pos(in.Pos()))
+			}
+		}
+		switch {
+		case len(sitesOf[f.Name()]) == 0:
+			c.Violate(key, where, "policy field polprog.Rules.%s is not handed to any stage (writeTiers/writeProfiles) in the closure of Builder.Instructions: that policy is silently not enforced (%s)", f.Name(), c11StageTable[f.Name()].why)
+		case len(stray) > 0:
+			c.Undecided(key, stray[0], "polprog.Rules.%s is also read without being handed directly to a stage function; the stage table cannot follow it", f.Name())
+		default:
+			var callees []string
+			for _, s := range sitesOf[f.Name()] {
+				callees = append(callees, s.cs.Callee.Name())
+			}
+			c.Ok(key, p.Pos(sitesOf[f.Name()][0].cs.Instr.Pos()), "rendered by %v", callees)
+		}
+	}
+
+	// ---- once: a field is rendered at most once on any path
+	for _, n := range sortedKeys(sitesOf) {
+		ss := sitesOf[n]
+		bad := ""
+		for i, a := range ss {
+			for _, b := range ss[i+1:] {
+				if a.cs.Fn != b.cs.Fn {
+					bad = "rendered in two different functions (" + fnName(a.cs.Fn) + ", " + fnName(b.cs.Fn) + ")"
+				} else if instrReaches(a.cs.Instr, b.cs.Instr) || instrReaches(b.cs.Instr, a.cs.Instr) {
+					bad = "rendered twice on one path (" + p.Pos(a.cs.Instr.Pos()) + " and " + p.Pos(b.cs.Instr.Pos()) + ")"
+				}
+			}
+		}
+		c.Check(bad == "", "C11.stages/once/"+n, p.Pos(ss[0].cs.Instr.Pos()),
+			fmt.Sprintf("%d site(s), mutually exclusive", len(ss)), "polprog.Rules."+n+" is "+bad+": its tiers would be evaluated twice, with the second copy seeing only what the first passed")
+	}
+
+	// ---- leg: the destination each stage matches on
+	for _, s := range sites {
+		where := p.Pos(s.cs.Instr.Pos())
+		legArgs := c11ArgByType(s.cs, c11IsNamed(m.legT))
+		if len(legArgs) == 0 {
+			// the callee fixes the leg itself: decided by C11.legflow for the functions it reaches
+			continue
+		}
+		if len(legArgs) > 1 {
+			c.Undecided("C11.stages/leg/"+s.id, where, "%s takes %d leg parameters", s.cs.Callee.Name(), len(legArgs))
+			continue
+		}
+		for _, vc := range c11CasesOf(legArgs[0]) {
+			state := s.xdp
+			if vc.Pred != nil {
+				state = c11EdgeTriState(vc.Pred, vc.Succ, boolPred("ForXDP"))
+			}
+			key := "C11.stages/leg/" + s.field
+			switch {
+			case state > 0:
+				key += "/xdp"
+			case state < 0 || !s.spec.xdp:
+				key += "/tc"
+			default:
+				key += "/any"
+			}
+			got, ok := legName(vc.V)
+			if !ok {
+				c.Undecided(key, where, "the leg argument of %s for polprog.Rules.%s is %s, not one of the matchLeg constants", s.cs.Callee.Name(), s.field, got)
+				continue
+			}
+			want, because := "", ""
+			switch {
+			case s.spec.preDNAT:
+				want, because = "legDestPreNAT", s.spec.why
+			case state > 0:
+				want, because = "legDestPreNAT", "an XDP program runs before conntrack/NAT: only the pre-NAT destination exists"
+			case state < 0 || !s.spec.xdp:
+				want, because = "legDest", s.spec.why
+			default:
+				c.Violate(key, where, "%s(rules.%s, %s, …) is emitted for TC and XDP programs alike, but the field is matched post-DNAT in TC programs and pre-NAT in XDP programs: the leg must be selected by ForXDP (%s)", s.cs.Callee.Name(), s.field, got, s.spec.why)
+				continue
+			}
+			c.Check(got == want, key, where,
+				fmt.Sprintf("%s(rules.%s, %s, …)", s.cs.Callee.Name(), s.field, got),
+				fmt.Sprintf("%s(rules.%s, %s, …): this stage must match destinations with %s, not %s — %s", s.cs.Callee.Name(), s.field, got, want, got, because))
+		}
+	}
+
+	// ---- guards: which mode flags may decide whether a stage is rendered
+	for _, s := range sites {
+		where := p.Pos(s.cs.Instr.Pos())
+		var bad []string
+		undecided := ""
+		for _, g := range sortedKeys(s.guards) {
+			switch g {
+			case "ForXDP=false":
+			case "ForXDP=true":
+				if !s.spec.xdp {
+					bad = append(bad, "rendered only for XDP programs, where this field is unused; TC programs lose the policy")
+				}
+			case "ForHostInterface=false":
+				if s.spec.host {
+					bad = append(bad, "host-endpoint policy is skipped on host interfaces")
+				}
+			case "ForHostInterface=true":
+				if s.spec.host {
+					bad = append(bad, "host-endpoint policy (host-*) is skipped on workload interfaces")
+				} else {
+					bad = append(bad, "workload policy is rendered only for host interfaces")
+				}
+			case "SuppressNormalHostPolicy=false":
+				if s.spec.traffic != "local" {
+					bad = append(bad, "SuppressNormalHostPolicy also suppresses this stage; it may only suppress normal (to/from-host) host policy")
+				}
+			case "SuppressNormalHostPolicy=true":
+				bad = append(bad, "rendered only when SuppressNormalHostPolicy is set")
+			default:
+				undecided = "stage is conditional on " + g + ", a mode flag the C11 stage table does not know"
+			}
+		}
+		if !s.spec.host && !s.guards["ForHostInterface=false"] {
+			bad = append(bad, "workload policy (with its default deny) is not conditional on !ForHostInterface: a host interface, which has no workload policy, would deny everything its host policy allowed")
+		}
+		key := "C11.stages/guards/" + s.id
+		switch {
+		case len(bad) > 0:
+			c.Violate(key, where, "stage %s(rules.%s) under %v: %s", s.cs.Callee.Name(), s.field, sortedKeys(s.guards), strings.Join(bad, "; "))
+		case undecided != "":
+			c.Undecided(key, where, "%s", undecided)
+		default:
+			c.Ok(key, where, "rendered under %v", sortedKeys(s.guards))
+		}
+	}
+
+	// ---- order
+	for _, a := range sites {
+		for _, b := range sites {
+			must, why := c11StageBefore(a, b)
+			if !must {
+				continue
+			}
+			key := "C11.stages/order/" + a.id + "<" + b.id
+			where := p.Pos(b.cs.Instr.Pos())
+			if a.cs.Fn != b.cs.Fn {
+				c.Undecided(key, where, "stages are rendered by different functions (%s, %s)", fnName(a.cs.Fn), fnName(b.cs.Fn))
+				continue
+			}
+			c.Check(!instrReaches(b.cs.Instr, a.cs.Instr), key, where, "never emitted in the opposite order",
+				fmt.Sprintf("rules.%s is rendered before rules.%s on some path: %s", b.field, a.field, why))
+		}
+	}
+
+	// ---- allow label: host stages continue to the workload policy, workload stages exit with allow
+	emsOf := map[*ssa.Function][]c11Emission{}
+	ems := func(f *ssa.Function) []c11Emission {
+		if _, ok := emsOf[f]; !ok {
+			emsOf[f] = m.emissionsIn(f)
+		}
+		return emsOf[f]
+	}
+	labelEms := func(f *ssa.Function, l string) []c11Emission {
+		var out []c11Emission
+		for _, e := range ems(f) {
+			if s, ok := e.labelConst(); ok && s == l {
+				out = append(out, e)
+			}
+		}
+		return out
+	}
+	exitLabel := map[string]bool{}
+	for _, l := range ft.labelOf {
+		exitLabel[l] = true
+	}
+	for _, s := range sites {
+		where := p.Pos(s.cs.Instr.Pos())
+		key := "C11.stages/allow-label/" + s.id
+		strArgs := c11ArgByType(s.cs, c11IsString)
+		if len(strArgs) != 1 {
+			c.Undecided(key, where, "%s takes %d string parameters; cannot tell which is the allow label", s.cs.Callee.Name(), len(strArgs))
+			continue
+		}
+		l, ok := c11ConstString(strArgs[0])
+		if !ok {
+			c.Undecided(key, where, "allow label of stage %s is not a constant (%s)", s.id, path(strArgs[0]))
+			continue
+		}
+		if !s.spec.host {
+			c.Check(l == ft.labelOf["allow"], key, where, fmt.Sprintf("workload stage allows to the %q exit section", l),
+				fmt.Sprintf("workload stage %s(rules.%s) sends allowed packets to %q, not to the allow exit section %q", s.cs.Callee.Name(), s.field, l, ft.labelOf["allow"]))
+			continue
+		}
+		var bad []string
+		if exitLabel[l] {
+			bad = append(bad, fmt.Sprintf("host stage sends allowed packets straight to the %q exit section: the workload policy that follows is bypassed", l))
+		} else {
+			ls := labelEms(s.cs.Fn, l)
+			if len(ls) == 0 {
+				bad = append(bad, fmt.Sprintf("label %q is not placed in %s", l, fnName(s.cs.Fn)))
+			}
+			for _, le := range ls {
+				for _, o := range sites {
+					if o.cs.Fn != s.cs.Fn {
+						continue
+					}
+					if o.spec.host && instrReaches(le.cs.Instr, o.cs.Instr) {
+						bad = append(bad, fmt.Sprintf("label %q is placed before host stage rules.%s: an allow would re-enter host policy", l, o.field))
+					}
+					if !o.spec.host && instrReaches(o.cs.Instr, le.cs.Instr) {
+						bad = append(bad, fmt.Sprintf("label %q is placed after workload stage rules.%s: an allow by host policy skips workload policy", l, o.field))
+					}
+				}
+			}
+		}
+		c.Check(len(bad) == 0, key, where, fmt.Sprintf("host stage allows to %q, placed after all host stages and before the workload stages", l), strings.Join(bad, "; "))
+	}
+
+	// ---- host-skip: to/from-host traffic skips exactly the forwarded-traffic stages
+	skip := m.fn(c11PolPkg, "Builder.writeJumpIfToOrFromHost")
+	stageFns := map[*ssa.Function]bool{}
+	for _, s := range sites {
+		stageFns[s.cs.Fn] = true
+	}
+	nSkip := 0
+	for _, f := range fns {
+		if !stageFns[f] {
+			continue
+		}
+		for _, j := range ems(f) {
+			if calleeFn(j.cs.Common()) != skip {
+				continue
+			}
+			nSkip++
+			where := p.Pos(j.cs.Instr.Pos())
+			strArgs := c11ArgByType(j.cs, c11IsString)
+			l, ok := "", false
+			if len(strArgs) == 1 {
+				l, ok = c11ConstString(strArgs[0])
+			}
+			if !ok {
+				c.Undecided("C11.stages/host-skip/"+fnName(f), where, "target label of writeJumpIfToOrFromHost is not a constant")
+				continue
+			}
+			jg := guardsAt(j.cs.Instr)
+			ls := labelEms(f, l)
+			for _, s := range sites {
+				if s.cs.Fn != f || !s.spec.host || contradict(jg, s.guards) {
+					continue
+				}
+				key := "C11.stages/host-skip/" + l + "/" + s.id
+				switch {
+				case s.spec.traffic == "":
+					c.Check(!instrReaches(j.cs.Instr, s.cs.Instr), key, where,
+						"rendered before the to/from-host jump: applies to all traffic",
+						fmt.Sprintf("rules.%s is rendered after writeJumpIfToOrFromHost(%q): traffic to/from the host skips it, but it applies to all traffic (%s)", s.field, l, s.spec.why))
+				case s.spec.traffic == "forwarded":
+					okBetween := instrReaches(j.cs.Instr, s.cs.Instr) && len(ls) > 0
+					for _, le := range ls {
+						if !instrReaches(s.cs.Instr, le.cs.Instr) || instrReaches(le.cs.Instr, s.cs.Instr) {
+							okBetween = false
+						}
+					}
+					c.Check(okBetween, key, where,
+						fmt.Sprintf("rendered between the to/from-host jump and its target %q", l),
+						fmt.Sprintf("rules.%s is not rendered between writeJumpIfToOrFromHost(%q) and the label %q: traffic to/from the host would be subjected to apply-on-forward policy (or forwarded traffic would miss it)", s.field, l, l))
+				case s.spec.traffic == "local":
+					okAfter := len(ls) > 0
+					for _, le := range ls {
+						if instrReaches(s.cs.Instr, le.cs.Instr) || !instrReaches(le.cs.Instr, s.cs.Instr) {
+							okAfter = false
+						}
+					}
+					c.Check(okAfter, key, where,
+						fmt.Sprintf("rendered after the to/from-host target %q", l),
+						fmt.Sprintf("rules.%s is not rendered after the label %q that writeJumpIfToOrFromHost jumps to: traffic to/from the host skips (part of) its normal host policy", s.field, l))
+				}
+			}
+		}
+	}
+	// forwarded traffic never falls through into the to/from-host stages
+	for _, a := range sites {
+		if a.spec.traffic != "forwarded" {
+			continue
+		}
+		if nSkip == 0 {
+			c.Violate("C11.stages/host-skip/"+a.id, p.Pos(a.cs.Instr.Pos()), "rules.%s applies to forwarded traffic only, but no writeJumpIfToOrFromHost is emitted in %s", a.field, fnName(a.cs.Fn))
+		}
+		isJump := map[ssa.Instruction]bool{}
+		for _, e := range ems(a.cs.Fn) {
+			if e.is("Jump") {
+				isJump[e.cs.Instr] = true
+			}
+		}
+		for _, b := range sites {
+			if b.spec.traffic != "local" || b.cs.Fn != a.cs.Fn || contradict(a.guards, b.guards) {
+				continue
+			}
+			falls := c11PathAvoiding(a.cs.Instr, b.cs.Instr, func(in ssa.Instruction) bool { return isJump[in] })
+			c.Check(!falls, "C11.stages/host-skip/exit/"+a.id+">"+b.id, p.Pos(a.cs.Instr.Pos()),
+				"an unconditional jump is emitted between the forwarded-traffic stage and the to/from-host stage",
+				fmt.Sprintf("no unconditional Jump is emitted on some path from rules.%s to rules.%s: forwarded traffic that apply-on-forward policy passes (or that has none) falls into the normal host policy and its default deny", a.field, b.field))
+		}
+	}
+	return byInstr
+}
+
+func (m *c11Model) legConstNames() []string {
+	var out []string
+	sc := m.p.Pkg(c11PolPkg).Types.Scope()
+	for _, n := range sc.Names() {
+		if k, ok := sc.Lookup(n).(*types.Const); ok && types.Identical(types.Unalias(k.Type()), m.legT) {
+			out = append(out, n)
+		}
+	}
+	if len(out) < 3 {
+		m.c.Lost("matchLeg constants: %v", out)
+	}
+	return out
+}
+
+// ----------------------------------------------------------------- legflow --
+
+// c11LegFlow: (pass) between the stage call and writeRule the destination leg
+// is handed down unchanged; a function without a leg parameter may only fix the
+// leg that every stage reaching it expects.  (map) each matchLeg constant
+// selects its own cali_tc_state field.
+func c11LegFlow(c *Ctx, m *c11Model, stageSites map[ssa.Instruction]*c11StageSite) {
+	p := m.p
+	writeRule := m.fn(c11PolPkg, "Builder.writeRule")
+	legParams := func(f *ssa.Function) []*ssa.Parameter {
+		var out []*ssa.Parameter
+		for _, q := range f.Params {
+			if types.Identical(types.Unalias(q.Type()), m.legT) {
+				out = append(out, q)
+			}
+		}
+		return out
+	}
+	closures := map[*ssa.Function]map[*ssa.Function]bool{}
+	closureOf := func(f *ssa.Function) map[*ssa.Function]bool {
+		if closures[f] == nil {
+			closures[f] = p.closure(f)
+		}
+		return closures[f]
+	}
+	isChain := func(f *ssa.Function) bool {
+		return f != nil && f.Blocks != nil && m.inPolFn(f) && len(legParams(f)) > 0 && (f == writeRule || closureOf(f)[writeRule])
+	}
+	legConstName := func(v ssa.Value) string {
+		cv, ok := constOf(v)
+		if !ok {
+			return ""
+		}
+		for _, n := range m.legConstNames() {
+			if c11PkgConst(c, p, c11PolPkg, n).ExactString() == cv.ExactString() {
+				return n
+			}
+		}
+		return ""
+	}
+	n := 0
+	for _, f := range m.polFuncs() {
+		for _, cs := range callsIn(f, false, m.inPol) {
+			g := calleeFn(cs.Common())
+			if !isChain(g) || stageSites[cs.Instr] != nil {
+				continue
+			}
+			n++
+			key := "C11.legflow/pass/" + fnName(f) + "/" + cs.Callee.Name()
+			where := p.Pos(cs.Instr.Pos())
+			legArgs := c11ArgByType(cs, c11IsNamed(m.legT))
+			if len(legArgs) != 1 || len(legParams(f)) > 1 {
+				c.Undecided(key, where, "%d leg arguments, caller has %d leg parameters", len(legArgs), len(legParams(f)))
+				continue
+			}
+			os := origins(legArgs[0], nil)
+			if own := legParams(f); len(own) == 1 {
+				ok := len(os) > 0
+				for _, o := range os {
+					if o.V != ssa.Value(own[0]) {
+						ok = false
+					}
+				}
+				c.Check(ok, key, where, "passes its own destination-leg parameter on",
+					fmt.Sprintf("%s calls %s with leg %s instead of its own %s parameter: the stage's choice of pre-/post-DNAT destination is lost on the way to writeRule", fnName(f), cs.Callee.Name(), path(legArgs[0]), own[0].Name()))
+				continue
+			}
+			// caller fixes the leg: what do the stages that reach it expect?
+			want := map[string][]string{}
+			for _, s := range stageSites {
+				sf := calleeFn(s.cs.Common())
+				if sf == nil || !(sf == f || closureOf(sf)[f]) {
+					continue
+				}
+				if s.spec.preDNAT || s.spec.xdp {
+					want["legDestPreNAT"] = append(want["legDestPreNAT"], s.field)
+				}
+				if !s.spec.preDNAT {
+					want["legDest"] = append(want["legDest"], s.field)
+				}
+			}
+			for k := range want {
+				sort.Strings(want[k])
+			}
+			got := ""
+			if len(os) == 1 {
+				got = legConstName(os[0].V)
+			}
+			switch {
+			case len(want) == 0:
+				c.Undecided(key, where, "%s fixes the destination leg but is not reached from any stage of Builder.Instructions", fnName(f))
+			case got == "":
+				c.Violate(key, where, "%s has no leg parameter and calls %s with leg %s, which is not a single matchLeg constant", fnName(f), cs.Callee.Name(), path(legArgs[0]))
+			case len(want) > 1:
+				c.Violate(key, where, "%s hard-codes %s but renders stages with different destinations (%v): it needs a leg parameter", fnName(f), got, want)
+			default:
+				c.Check(len(want[got]) > 0, key, where,
+					fmt.Sprintf("fixes %s, the destination of every stage that reaches it (%v)", got, want[got]),
+					fmt.Sprintf("%s calls %s with %s, but the stages it renders (%v) match on %v", fnName(f), cs.Callee.Name(), got, want, sortedKeys(want)))
+			}
+		}
+	}
+	if n == 0 {
+		c.Lost("no call hands a destination leg down towards Builder.writeRule")
+	}
+
+	// (map) leg constant -> cali_tc_state field
+	rows := map[string]map[string]string{
+		"address": {"legSource": "state->ip_src", "legDestPreNAT": "state->pre_nat_ip_dst", "legDest": "state->post_nat_ip_dst"},
+		"port":    {"legSource": "state->sport", "legDestPreNAT": "state->pre_nat_dport", "legDest": "state->post_nat_dport"},
+	}
+	offs := m.fieldOffsetStrings()
+	legs := m.legConstNames()
+	legVal := map[string]string{}
+	for _, l := range legs {
+		legVal[constant.StringVal(c11PkgConst(c, p, c11PolPkg, l))] = l
+		for r := range rows {
+			if rows[r][l] == "" {
+				c.Lost("matchLeg constant %s has no expected state field in the C11 leg table", l)
+			}
+		}
+	}
+	seenRow := map[string]bool{}
+	for _, f := range p.methodsOf(c11PolPkg, "matchLeg") {
+		res := f.Signature.Results()
+		if res.Len() != 1 || namedTypeName(res.At(0).Type()) != "FieldOffset" {
+			continue
+		}
+		where := p.Pos(f.Pos())
+		recv := ssa.Value(f.Params[0])
+		sel := map[string]map[string]bool{}
+		undecided := ""
+		for _, r := range returnsOf(f) {
+			for _, vc := range c11CasesOf(r.Results[0]) {
+				g := c11GlobalOf(vc.V)
+				if g == nil || offs[g] == "" {
+					undecided = "returns " + path(vc.V) + ", not a package-level asm.FieldOffset with a Field string"
+					continue
+				}
+				pred, succ := vc.Pred, vc.Succ
+				if pred == nil {
+					pred = r.Block()
+				}
+				is, not := c11EqFacts(pred, succ, recv)
+				var which []string
+				if len(is) > 0 {
+					for _, s := range is {
+						which = append(which, legVal[s])
+					}
+				} else {
+					excl := map[string]bool{}
+					for _, s := range not {
+						excl[legVal[s]] = true
+					}
+					for _, l := range legs {
+						if !excl[l] {
+							which = append(which, l)
+						}
+					}
+				}
+				for _, l := range which {
+					if sel[l] == nil {
+						sel[l] = map[string]bool{}
+					}
+					sel[l][offs[g]] = true
+				}
+			}
+		}
+		row := ""
+		for r, exp := range rows {
+			if sel["legSource"][exp["legSource"]] {
+				row = r
+			}
+		}
+		if undecided != "" || row == "" {
+			if undecided == "" {
+				undecided = fmt.Sprintf("legSource selects %v, which is neither the source address nor the source port", sortedKeys(sel["legSource"]))
+			}
+			c.Undecided("C11.legflow/map/"+fnName(f), where, "%s", undecided)
+			continue
+		}
+		seenRow[row] = true
+		for _, l := range legs {
+			got := sortedKeys(sel[l])
+			c.Check(len(got) == 1 && got[0] == rows[row][l], "C11.legflow/map/"+fnName(f)+"/"+l, where,
+				fmt.Sprintf("%s -> %s", l, rows[row][l]),
+				fmt.Sprintf("%s: %s selects %v; the %s of that leg is %s", fnName(f), l, got, row, rows[row][l]))
+		}
+	}
+	for _, r := range sortedKeys(rows) {
+		if !seenRow[r] {
+			c.Lost("no method of matchLeg maps the leg to the %s field of cali_tc_state", r)
+		}
+	}
 }
